@@ -31,6 +31,7 @@ import (
 	"fmt"
 	lru "github.com/hashicorp/golang-lru"
 	"sort"
+	"sync"
 )
 
 const (
@@ -108,6 +109,10 @@ type TxPool struct {
 
 	executed db.Database
 	batch    db.Batch
+
+	// mu makes "existence check + insert" atomic with respect to MarkExecuted/UnMarkExecuted and
+	// serialises every use of batch
+	mu sync.Mutex
 }
 
 var (
@@ -176,6 +181,9 @@ func (pool *TxPool) AddTransaction(tx *types.Transaction) (bool, error) {
 	//	return false, ErrEvicted
 	//}
 
+	pool.mu.Lock()
+	defer pool.mu.Unlock()
+
 	b, err := pool.add(tx)
 	if nil == err {
 		pool.refreshGateNonce(tx)
@@ -184,6 +192,9 @@ func (pool *TxPool) AddTransaction(tx *types.Transaction) (bool, error) {
 }
 
 func (pool *TxPool) MarkExecuted(header *types.BlockHeader, receipts types.Receipts, txs []*types.Transaction, evictedTxs []common.Hash) {
+	pool.mu.Lock()
+	defer pool.mu.Unlock()
+
 	txHashList := make([]interface{}, 0)
 
 	if receipts != nil && len(receipts) != 0 {
@@ -254,6 +265,8 @@ func (pool *TxPool) UnMarkExecuted(block *types.Block) {
 		}
 	}
 
+	pool.mu.Lock()
+	defer pool.mu.Unlock()
 	for _, tx := range txs {
 		pool.executed.Delete(tx.Hash.Bytes())
 		pool.add(tx)
@@ -289,6 +302,8 @@ func (pool *TxPool) GetTransactionStatus(hash common.Hash) (uint, error) {
 func (pool *TxPool) Clear() {
 	middleware.LockBlockchain("Clear")
 	defer middleware.UnLockBlockchain("Clear")
+	pool.mu.Lock()
+	defer pool.mu.Unlock()
 
 	executed, _ := db.NewDatabase(txDataBasePrefix)
 	pool.executed = executed
